@@ -6,6 +6,15 @@ LEVEL = "exploration"
 
 def run(res, tier):
     wire.run(res, "C04", tier)
+    # the protocol-parsing handlers: the PROXY protocol and SOCKS5 grids of C12 / C16, judged here for panics only
+    import check_c12
+    import check_c16
+    n_asm = len(res.assumptions)
+    pp = check_c12.run(res, tier, only=("Q0",))
+    sk = check_c16.run(res, tier, only=("K0",))
+    del res.assumptions[n_asm:]
+    res.coverage["handlers"] = dict(proxy_protocol_cases=pp["cases"], socks5_cases=sk["cases"],
+                                    rule="every case of the PROXY protocol receive/send grid (C12) and of the SOCKS5 configuration x script grid (C16) run on the real handlers under recover(); a panic is a violation (clauses Q0 / K0)")
     c = res.coverage
     c["evaluations"] = c.pop("evaluations_of_real_matchers")
     c["distinct_nontrivial"] = c["vectors"]
